@@ -1,6 +1,26 @@
 """Per-property driver configuration (level claimed, generation/non-triviality rule, assumptions)."""
 
 PROPS = {
+    "C09": {
+        "level": "exploration",
+        "workers": 16,
+        "engine": "E1-pure",
+        "abort_is_violation": True,
+        "technique": "property-based round-trip + differential (crsql_pack_columns) + generated mutations of valid frames under a counting allocator; libFuzzer targets with the same oracle in the thorough tier",
+        "level_text": ("generated-input search with four oracles: decode(encode(x)) == x for every wire type; pack/unpack round trip and byte-for-byte "
+                       "agreement with the database extension's own packing; decoding mutated valid frames never panics, never aborts, never allocates "
+                       "beyond 64 KiB + 32 x input length (counting global allocator, requests > 1 GiB refused and turned into a caught panic), yields "
+                       "only valid UTF-8 and re-encodes when accepted"),
+        "level_note": "trusts the counting allocator wrapper and the mirror generators; decoders are the real decode sites (UniPayload/BiPayload::read_from_buffer, SyncMessage::from_buf, unpack_columns)",
+        "rule": ("generated: every SyncMessage/UniPayload/BiPayload variant with all changeset/need variants and all SQLite value kinds (NaN payloads, +-0, "
+                 "+-inf, i64 extremes, lengths on byte-width borders up to 70 000); packed keys of 0..255 columns; hostile = valid frame + 1-3 mutations "
+                 "(truncate, bit flip, byte set, 32/64-bit overwrite with {2^31, 2^32-1, 2^63, 2^64-1, ...}, append), optionally decoded by another family's "
+                 "decoder. Non-trivial: round trip: >=2 value kinds in a Full changeset / state with need and partial_need / request with >=2 needs; "
+                 "pack: >=2 kinds or a value crossing a byte-width border; hostile: mutated frame that still passes the outer version/variant tags. "
+                 "Distinct = hash of the generated case."),
+        "assumptions": ["frames above 70 KB are not generated (memory x 16 workers); the 100 MiB codec limit is not approached",
+                        "allocation bound 64 KiB + 32 x len is a generous over-approximation of in-memory size vs wire size (largest legitimate ratio ~4)"],
+    },
     "C18": {
         "level": "exploration",
         "workers": 16,
